@@ -413,6 +413,32 @@ func execOp(st *state, line string) string {
 				return "fault:error " + err.Error()
 			}
 			return fmt.Sprintf("ok pk=%s sk=%s", hx(pk[:]), hx(sk[:]))
+		case f[0] == "dl.unpacksk" && len(f) == 2:
+			sk, ok := sized4864(unhex(f[1]))
+			if !ok {
+				return "bad-op"
+			}
+			rho, tr, key, t0, s1, s2 := dilithium.VerifUnpackSk(&sk)
+			join := func(n int, at func(i int) []int32) string {
+				var ps []string
+				for i := 0; i < n; i++ {
+					ps = append(ps, polyStr(at(i)))
+				}
+				return strings.Join(ps, " | ")
+			}
+			return fmt.Sprintf("ok rho=%s key=%s tr=%s s1=%s s2=%s t0=%s", hx(rho[:]), hx(key[:]), hx(tr[:]),
+				join(dL, func(i int) []int32 { return s1[i][:] }), join(dK, func(i int) []int32 { return s2[i][:] }), join(dK, func(i int) []int32 { return t0[i][:] }))
+		case f[0] == "dl.unpackpk" && len(f) == 2:
+			pk, ok := sized2592(unhex(f[1]))
+			if !ok {
+				return "bad-op"
+			}
+			rho, t1 := dilithium.VerifUnpackPk(&pk)
+			var ps []string
+			for i := 0; i < dK; i++ {
+				ps = append(ps, polyStr(t1[i][:]))
+			}
+			return fmt.Sprintf("ok rho=%s t1=%s", hx(rho[:]), strings.Join(ps, " | "))
 		case f[0] == "dl.filled" && len(f) == 2:
 			// the library's sampling loops run until all 256 coefficients are filled (key generation returned),
 			// so on the implementation side the hypothesis of the model's end-to-end theorem is trivially met
